@@ -65,7 +65,7 @@ func (fr *FnRun) builtin(st *State, site ssa.Instruction, c *ssa.CallCommon, nam
 		switch v := args[0].(type) {
 		case *SliceV:
 			if v.Arr != nil {
-				av := ex.heapGet(st, v.Arr).(*ArrayV)
+				av := fr.arrOf(st, v)
 				nd := ex.freshArrData(av.Elem, ex.fresh(v.Arr.Name))
 				if ot, ok := av.Data.(*Term); ok {
 					nt := nd.(*Term)
@@ -76,7 +76,7 @@ func (fr *FnRun) builtin(st *State, site ssa.Instruction, c *ssa.CallCommon, nam
 						st.assume(Forall([]*Term{kk}, Eq(Select(nt, kk), Ite(inWin, z, Select(ot, kk))), Select(nt, kk)))
 					}
 				}
-				st.heap[v.Arr] = &ArrayV{Elem: av.Elem, N: av.N, Data: nd}
+				fr.setArr(st, v, &ArrayV{Elem: av.Elem, N: av.N, Data: nd})
 			}
 		case *MapV:
 			if v.Obj != nil {
@@ -141,6 +141,7 @@ func (fr *FnRun) appendBuiltin(st *State, site ssa.Instruction, args []Val) Val 
 	}
 	newLen := Add(s.Len, addLen)
 	o := ex.newObj(ex.fresh("app"), types.NewSlice(s.Elem))
+	o.IsArr = true
 	var oldData ArrData
 	if s.Arr != nil {
 		oldData = fr.sliceData(st, s)
@@ -163,28 +164,38 @@ func (fr *FnRun) appendBuiltin(st *State, site ssa.Instruction, args []Val) Val 
 			nd = ex.writeElem(st, nd, s.Elem, Add(s.Off, Add(s.Len, Int(i))), el)
 		}
 	} else {
-		ot, ok1 := oldData.(*Term)
-		if !ok1 {
-			panic(abortf("append of a symbolic number of non-scalar elements"))
-		}
-		nt := Var(ex.fresh("appdata"), ot.Sort)
-		kk := Var("k!a", SInt)
 		base := Add(s.Off, s.Len)
-		// prefix (and everything before the appended window) unchanged
-		st.assume(Forall([]*Term{kk}, Implies(Lt(kk, base), Eq(Select(nt, kk), Select(ot, kk))), Select(nt, kk)))
-		switch {
-		case src != nil && src.ViewW > 0:
-			st.assume(fr.viewCopyFact(st, nt, base, src, addLen))
-		case src != nil:
-			sd, ok2 := fr.sliceData(st, src).(*Term)
-			if !ok2 {
-				panic(abortf("append of non-scalar slice"))
+		kk := Var("k!a", SInt)
+		if src != nil && src.ViewW > 0 {
+			ot, ok1 := oldData.(*Term)
+			if !ok1 {
+				panic(abortf("append of a byte view to a non-byte slice"))
 			}
-			st.assume(Forall([]*Term{kk}, Implies(And(Le(Int(0), kk), Lt(kk, addLen)), Eq(Select(nt, Add(base, kk)), Select(sd, Add(src.Off, kk)))), Select(nt, Add(base, kk))))
-		default:
-			st.assume(Forall([]*Term{kk}, Implies(And(Le(Int(0), kk), Lt(kk, addLen)), Eq(Select(nt, Add(base, kk)), Select(srcStr.Arr, kk))), Select(nt, Add(base, kk))))
+			nt := Var(ex.fresh("appdata"), ot.Sort)
+			st.assume(Forall([]*Term{kk}, Implies(Lt(kk, base), Eq(Select(nt, kk), Select(ot, kk))), Select(nt, kk)))
+			st.assume(fr.viewCopyFact(st, nt, base, src, addLen))
+			nd = nt
+		} else {
+			newD := ex.freshArrData(s.Elem, ex.fresh("appdata"))
+			var srcD ArrData
+			var srcOff *Term = Int(0)
+			if src != nil {
+				srcD = fr.sliceData(st, src)
+				srcOff = src.Off
+			} else {
+				srcD = srcStr.Arr
+			}
+			ol, nl, sl := arrLeaves(oldData), arrLeaves(newD), arrLeaves(srcD)
+			if ol == nil || nl == nil || sl == nil || len(ol) != len(nl) || len(sl) != len(nl) {
+				panic(abortf("append of a symbolic number of reference-typed elements"))
+			}
+			for i := range nl {
+				nt, ot, sd := nl[i], ol[i], sl[i]
+				st.assume(Forall([]*Term{kk}, Implies(Lt(kk, base), Eq(Select(nt, kk), Select(ot, kk))), Select(nt, kk)))
+				st.assume(Forall([]*Term{kk}, Implies(And(Le(Int(0), kk), Lt(kk, addLen)), Eq(Select(nt, Add(base, kk)), Select(sd, Add(srcOff, kk)))), Select(nt, Add(base, kk))))
+			}
+			nd = newD
 		}
-		nd = nt
 	}
 	st.heap[o] = &ArrayV{Elem: s.Elem, N: -1, Data: nd}
 	if s.Arr != nil {
@@ -400,3 +411,25 @@ func (fr *FnRun) rangeNext(st *State, x *ssa.Next) {
 // ---------------------------------------------------------------------------
 // byte views (unsafe idiom): implemented in view.go
 
+
+// arrLeaves flattens array data into its SMT array terms (nil when a
+// reference-typed component is present).
+func arrLeaves(d ArrData) []*Term {
+	switch a := d.(type) {
+	case *Term:
+		return []*Term{a}
+	case *StructArr:
+		var out []*Term
+		for _, f := range a.F {
+			l := arrLeaves(f)
+			if l == nil {
+				return nil
+			}
+			out = append(out, l...)
+		}
+		return out
+	case *NestedArr:
+		return []*Term{a.Data}
+	}
+	return nil
+}
